@@ -38,6 +38,10 @@ def dec(v):
     """ops are JSON; {"__bytes__": "text"} stands for a bytes value (a py2-minded caller handing bytes to a text field)"""
     if isinstance(v, dict) and list(v.keys()) == ["__bytes__"]:
         return v["__bytes__"].encode("utf-8")
+    if isinstance(v, dict) and list(v.keys()) == ["__set__"]:
+        return set(v["__set__"])          # a caller handing a set (or tuple) where a list is documented
+    if isinstance(v, dict) and list(v.keys()) == ["__tuple__"]:
+        return tuple(v["__tuple__"])
     return v
 
 
@@ -139,6 +143,11 @@ class FormatMachine(MachineBase):
     def do_dump(self, slot, target, op):
         slot.obj.dump(target)
 
+    def dump_via_handle(self, s, path, op):
+        """dump(f) with f an open file object (the other documented kind of destination)"""
+        with open(path, "w") as fo:
+            self.do_dump(s, fo, op)
+
     # ---- helpers ------------------------------------------------------------
     def slot(self, op):
         return self.slots.get(op.get("slot", 0))
@@ -159,7 +168,9 @@ class FormatMachine(MachineBase):
             except ValueError as e:
                 raise Violation("C08", "C08.output_is_json", "not-json/%s" % self.FORMAT, {"error": str(e)[:100]})
             want = json.dumps(doc, indent=4, sort_keys=True, separators=(",", ": "))
-            if text != want:
+            # the property fixes key order and indentation, not whether non-ASCII characters are \u-escaped
+            want2 = json.dumps(doc, indent=4, sort_keys=True, separators=(",", ": "), ensure_ascii=False)
+            if text != want and text != want2:
                 raise Violation("C08", "C08.json_sorted_indent4", "noncanonical-json/%s" % self.FORMAT,
                                 {"diff": _text_diff(text, want)})
         elif self.KIND == "ini":
@@ -177,12 +188,20 @@ class FormatMachine(MachineBase):
         verdict, why = (UNSPEC, "tainted") if s.tainted else self.validity(s)
         mark = len(self.fs.trace)
         try:
-            self.do_dump(s, path, op)
+            if op.get("to") == "handle" and verdict == VALID:
+                self.dump_via_handle(s, path, op)
+            else:
+                self.do_dump(s, path, op)
         except Exception as e:
             if isinstance(e, HarnessError):
                 raise
             return self._dump_failed(s, op, path, before, verdict, why, e, mark)
         after = self.fs.get(path)
+        if verdict == INVALID and not self.watching("C06"):
+            # another property's run: what now sits at the destination is simply not trusted any more
+            self.durable[path] = {"expected": None, "bytes": after, "clean": False, "kw": {}}
+            CTX.probe("foreign.invalid_object_written")
+            return "written-invalid(foreign)"
         if verdict == INVALID:
             self.count("C06", ["accepted", self.FORMAT, why])
             raise Violation("C06", "C06.invalid_object_written", "written/%s/%s" % (self.FORMAT, why),
@@ -207,7 +226,7 @@ class FormatMachine(MachineBase):
     def _dump_failed(self, s, op, path, before, verdict, why, e, mark):
         after = self.fs.get(path)
         opened = any(t[0] == "open_w" and t[1] == path for t in self.fs.trace[mark:])
-        if verdict == VALID:
+        if verdict == VALID and self.watching("C06"):
             raise Violation("C06", "C06.valid_object_refused", "refused/%s/%s" % (self.FORMAT, exc_class(e)),
                             {"error": exc_class(e), "msg": str(e)[:160]})
         if verdict == INVALID:
@@ -251,6 +270,8 @@ class FormatMachine(MachineBase):
                     raise Violation("C06", "C06.wrong_exception_type", "exctype/%s/%s/%s" % (self.FORMAT, why, exc_class(e)),
                                     {"error": exc_class(e), "msg": str(e)[:160], "why": why})
             return "refused:" + exc_class(e)
+        if verdict == INVALID and not self.watching("C06"):
+            return "written-invalid(foreign)"
         if verdict == INVALID:
             raise Violation("C06", "C06.invalid_object_written", "written/%s/%s" % (self.FORMAT, why),
                             {"why": why, "via": "dumps", "chars": len(text)})
@@ -393,11 +414,28 @@ class FormatMachine(MachineBase):
             if diff:
                 raise Violation(P, "%s.upgrade_carries_same_facts" % P, "upgrade-differs/%s/%s" % (key, diff_key(diff)),
                                 {"diff": diff, "via": via})
+        for part, want in (d.get("partial") or {}).items():
+            diff = first_diff(want, got.get(part))
+            if diff:
+                P2 = "C16" if (part == "checksums" and self.cfg.get("focus") == "C16") else P
+                raise Violation(P2, "%s.upgrade_carries_same_facts" % P2, "upgrade-differs/%s/%s/%s" % (key, part, diff_key(diff)),
+                                {"diff": diff, "via": via})
+        # the write-back / reload / second-write part runs on a SECOND object loaded from the same old document, so that
+        # the object the node goes on living with has never been dumped (a dump may itself touch the live object)
+        live = new
+        try:
+            new = self.load_fresh(path, "path", 0)
+        except Exception as e:
+            if isinstance(e, HarnessError):
+                raise
+            raise Violation(P, "%s.older_document_accepted" % P, "older-document-rejected-second-time/%s/%s" % (key, exc_class(e)),
+                            {"error": exc_class(e), "msg": str(e)[:200]})
         try:
             text1 = self.redump(new, d)
         except Exception as e:
             if isinstance(e, HarnessError):
                 raise
+            new = live
             v = Violation("C05", "C05.upgraded_object_can_be_written", "upgraded-object-unwritable/%s/%s" % (key, exc_class(e)),
                           {"error": exc_class(e), "msg": str(e)[:200], "source": d.get("source")})
             self.soft(v)
@@ -418,7 +456,7 @@ class FormatMachine(MachineBase):
             v = Violation("C05", "C05.rewritten_file_loads", "rewritten-file-rejected/%s/%s" % (key, exc_class(e)),
                           {"error": exc_class(e), "msg": str(e)[:200], "source": d.get("source")})
             self.soft(v)
-            s.obj = new
+            s.obj = live
             s.tainted = True
             self.rebind(s)
             return "legacy-reload-known"
@@ -435,7 +473,7 @@ class FormatMachine(MachineBase):
         self.fs.put(path, text1)
         self.durable[path] = {"expected": got, "bytes": text1.encode("utf-8"), "clean": True, "kw": d.get("kw", {})}
         self.after_legacy_durable(path, got)
-        s.obj = new
+        s.obj = live
         s.model = self.model_from_expected(s, got)
         s.tainted = False
         self.rebind(s)
